@@ -569,6 +569,7 @@ def evaluate__value_comparison_operators(self: XPathToken, context: ta.ContextTy
         raise self.error('XPTY0004', msg)
 
     try:
+        operands[:] = self.with_implicit_timezone(context, *operands)
         return cast(bool, getattr(operator, self.symbol)(*operands))
     except TypeError as err:
         raise self.error('XPTY0004', err) from None
